@@ -11,7 +11,7 @@ from ..callgraph import CallGraph
 from ..cfg import cfg_of
 from ..model import FunctionInfo, AnalysisError
 from ..report import Ctx
-from ..util import norm, fn_body_nodes, kwarg
+from ..util import cmp_views, norm, fn_body_nodes, kwarg
 from .common import arg_permutation_rule, names_in, calls_named
 from . import simloop as SL
 from .c10 import depends_on
@@ -85,8 +85,10 @@ def run(ctx: Ctx):
     else:
         g = ifs[0]
         t = g.test
-        ok_shape = isinstance(t, ast.Compare) and ast.unparse(t.left) == f"self.s_a_counts[{st}, {ac}]" and ast.unparse(t.comparators[0]) == "self.m"
-        ctx.check(ok_shape and isinstance(t.ops[0], ast.Lt), "SIM-8", ob, g, "samples are admitted only while count < m (strictly)", norm(t),
+        cnt = f"self.s_a_counts[{st}, {ac}]"
+        views = cmp_views(t)
+        ok_shape = any(l == cnt and r == "self.m" for l, op, r in views)
+        ctx.check((cnt, "<", "self.m") in views, "SIM-8", ob, g, "samples are admitted only while count < m (strictly)", norm(t),
                   f"guard `{norm(t)}` admits more than the first m samples of a pair into the empirical model" if ok_shape else f"guard is `{norm(t)}`")
         incs = {ast.unparse(n.target): n for n in g.body if isinstance(n, ast.AugAssign) and isinstance(n.op, ast.Add)}
         c = incs.get(f"self.s_a_counts[{st}, {ac}]")
@@ -97,7 +99,7 @@ def run(ctx: Ctx):
         tt = incs.get(f"self.transitions[{st}, {ac}, {nx}]")
         ctx.check(tt is not None and ast.unparse(tt.value) == "1", "SIM-8", ob, tt if tt is not None else g, "transition count of (state, action, next_state) incremented", "", "transition counting changed")
         trig = [n for n in g.body if isinstance(n, ast.If)]
-        ok = bool(trig) and ast.unparse(trig[0].test).replace(" ", "") == f"self.s_a_counts[{st},{ac}]==self.m" and "self._value_iteration(gamma)" in ast.unparse(trig[0])
+        ok = bool(trig) and (f"self.s_a_counts[{st}, {ac}]", "==", "self.m") in cmp_views(trig[0].test) and "self._value_iteration(" in ast.unparse(trig[0])
         ctx.check(ok, "SIM-8", ob, trig[0] if trig else g, "the model is re-solved exactly when a pair reaches the threshold", "", "re-solve trigger changed")
         if trig and c is not None:
             ctx.check(g.body.index(trig[0]) > g.body.index(c), "SIM-8", ob, trig[0], "threshold test follows the increment", "", "threshold is tested before the count is incremented")
